@@ -6,6 +6,7 @@ import (
 	"encoding/json"
 	"errors"
 	"fmt"
+	"io"
 	"math/rand"
 	"net/http"
 	"net/http/httptest"
@@ -121,13 +122,21 @@ func mkElem(kind string, rng *rand.Rand) elem {
 		}
 	case "arity":
 		params = []string{"[]", "[1,2]", "[1,2,3]"}[rng.Intn(3)]
-		if rng.Intn(2) == 0 {
+		switch rng.Intn(3) {
+		case 0:
 			method = "J.Add"
 			params = []string{"[1]", "[]", "[1,2,3]"}[rng.Intn(3)]
+		case 1: // a method declared without parameters called with some
+			method = "J.Nop"
+			params = []string{"[1]", "[1,2]", `["x"]`, "[null]"}[rng.Intn(4)]
 		}
 		e.Expect, e.Code, e.Runs = "error", -32602, 0
 	case "types":
 		params = []string{`["x"]`, `[1.5]`, `[{}]`, `[[1]]`, `[true]`, `{"x":1}`, `"str"`, `5`}[rng.Intn(8)]
+		if rng.Intn(5) == 0 {
+			method = "J.Nop" // non-list params for a parameterless method
+			params = []string{`{"force":true}`, `"str"`, `5`}[rng.Intn(3)]
+		}
 		e.Expect, e.Code, e.Runs = "error", 0, 0
 	case "badid":
 		e.IDRaw, e.IDKind = idInvalid[rng.Intn(len(idInvalid))], "invalid"
@@ -193,8 +202,8 @@ type c09Srv struct {
 	rpc *jsonrpc.RPCServer
 }
 
-func newC09Srv() *c09Srv {
-	s := &c09Srv{j: &J{}, rpc: jsonrpc.NewServer()}
+func newC09Srv(opts ...jsonrpc.ServerOption) *c09Srv {
+	s := &c09Srv{j: &J{}, rpc: jsonrpc.NewServer(opts...)}
 	s.rpc.Register("J", s.j)
 	s.rpc.AliasMethod("J.Alias", "J.Val")
 	return s
@@ -490,6 +499,10 @@ func normID(raw string) string {
 	return "x:" + raw
 }
 
+type failingReader struct{}
+
+func (failingReader) Read([]byte) (int, error) { return 0, errors.New("transfer failed") }
+
 func pad(rng *rand.Rand) string {
 	return []string{"", "", " ", "\n", "\t \r\n"}[rng.Intn(5)]
 }
@@ -497,9 +510,35 @@ func pad(rng *rand.Rand) string {
 func (c09) http(sc core.Scenario, r *core.R) {
 	rng := sc.Rand()
 	s := newC09Srv()
+	limited := sc.Seed%2 == 0
+	if limited {
+		s = newC09Srv(jsonrpc.WithMaxRequestSize(8192))
+	}
 	via := sc.I("via")
 	var sample interface{}
 	for i := 0; i < sc.I("n"); i++ {
+		if limited && rng.Intn(12) == 0 {
+			// a request the server rejects before parsing (oversize, or a body whose transfer fails part-way);
+			// whatever it answers, the following requests must be judged as usual
+			before := atomic.LoadInt64(&s.j.n)
+			if rng.Intn(2) == 0 {
+				e := mkElem("call-ok", rng)
+				reply, _ := s.post(e.Raw+strings.Repeat(" ", 9000), via)
+				judgeBody("oversize", false, nil, reply, 0, r)
+				if !strings.Contains(reply, `"error"`) {
+					r.Violate("oversize-not-rejected", "a 9 kB body against an 8 kB limit was answered with %s", core.Trunc(reply, 120))
+				}
+			} else {
+				e := mkElem("call-ok", rng)
+				var buf bytes.Buffer
+				s.rpc.HandleRequest(context.Background(), io.MultiReader(strings.NewReader(e.Raw[:len(e.Raw)/2]), failingReader{}), &buf)
+				judgeBody("broken-transfer", false, nil, buf.String(), 0, r)
+			}
+			if atomic.LoadInt64(&s.j.n) != before {
+				r.Violate("handler-run-count", "a request rejected before parsing ran a handler")
+			}
+			r.Obs("rejected_before_parsing", 1)
+		}
 		var body string
 		var elems []elem
 		isBatch := false
